@@ -1,4 +1,5 @@
 import Solstat.Check
+import Solstat.Analyze
 open Solstat Solstat.Gen
 
 def splitTabs (s : String) : List String := s.splitOn "\t"
@@ -85,24 +86,21 @@ def handleDet (st : St) (fid det impl : String) : Verdict :=
 def handleLines (st : St) (fid cat variant impl : String) : Verdict :=
   match lookup st.files fid, dispatchOf cat variant with
   | some f, some det =>
-    match detectorByName det with
-    | none => { kind := "LINES", group := variant, agree := "E", detail := s!"no model for {det}" }
-    | some d =>
-      let model := fmtNats (canonNats ((d f.tree).map (fun l => lineOf f.src l.start)))
-      -- oracle (C02): the reported lines are the lines on which the implementation's own flagged constructs begin
-      let oracle :=
-        if impl == "PANIC" then "VIOL"
+    -- the per-file entry point is checked on the implementation's own detector output (the detectors
+    -- themselves are the business of C04-C10): lines = set of lineOf(start) over the flagged locations
+    match (st.detImpl.find? (fun e => e.1 == (fid, det))).map (·.2) with
+    | some locsText =>
+      match parseLocs locsText with
+      | some locs =>
+        if impl == "PANIC" then { kind := "LINES", group := variant, agree := "D", oracle := "na", detail := "entry point panics although its detector does not" }
         else
-          match (st.detImpl.find? (fun e => e.1 == (fid, det))).map (·.2) with
-          | some locsText =>
-            match parseLocs locsText with
-            | some locs =>
-              let spec := fmtNats (canonNats (locs.map (fun l => specLine f.src l.1)))
-              if spec == impl then "ok" else "VIOL"
-            | none => "na"
-          | none => "na"
-      { kind := "LINES", group := variant, agree := if model == impl then "A" else "D", oracle := oracle,
-        detail := if model == impl && oracle != "VIOL" then "" else s!"model={model}|impl={impl}" }
+          let model := fmtNats (lineSet (locs.map (fun l => lineOf f.src l.1)))
+          let spec := fmtNats (canonNats (locs.map (fun l => specLine f.src l.1)))
+          { kind := "LINES", group := variant, agree := if model == impl then "A" else "D",
+            oracle := if spec == impl then "ok" else "VIOL",
+            detail := if model == impl && spec == impl then "" else s!"model={model}|spec={spec}|impl={impl}|locs={locsText}" }
+      | none => { kind := "LINES", group := variant, agree := "na", oracle := "na", detail := "detector panics (C04)" }
+    | none => { kind := "LINES", group := variant, agree := "E", detail := s!"no DET observation for {det}" }
   | _, _ => { kind := "LINES", group := variant, agree := "E", detail := "unknown file or variant" }
 
 def step (st : St) (line : String) : St × Option Verdict :=
